@@ -54,7 +54,8 @@ Bowtie   == PathEO(<< <<"M", 1, 1>>, <<"L", 19, 17>>, <<"L", 19, 1>>, <<"L", 1, 
                       <<"M", 4, 6>>, <<"L", 16, 6>>, <<"L", 16, 14>>, <<"L", 4, 14>> >>)
 Empty    == Path(<<>>)
 LineFirst == Path(<< <<"L", 2, 2>>, <<"L", 18, 4>>, <<"L", 6, 18>> >>)
-Sliver   == Path(<< <<"M", 1, 9>>, <<"L", 19, 10>>, <<"L", 19, 11>> >>)
+\* begins with Close (a no-op on a fresh path) and then a LineTo that is its start: nothing of an earlier path may leak in
+Sliver   == Path(<< <<"Z">>, <<"L", 1, 9>>, <<"L", 19, 10>>, <<"L", 19, 11>> >>)
 Tall     == Path(<< <<"M", 9, -40>>, <<"L", 12, 60>>, <<"L", 6, 60>> >>)
 Shapes == <<Tri, Quad, OffRect, PixRect, OffSurf, Bowtie, LineFirst, Sliver, Tall, Empty>>
 ClipPaths == <<Tri, Quad, Bowtie, OffSurf, Sliver>>
